@@ -7,6 +7,7 @@ import DSV.Model.Meta
 import DSV.Model.Gc
 import DSV.Model.Occ
 import DSV.Model.Lock
+import DSV.Model.Create
 /-!
 Line-protocol driver: one request per line on stdin, one reply per line on stdout.
 First token selects the model function.  Imports only `DSV.Model.*` (core Lean), so it links natively.
@@ -605,6 +606,63 @@ def handleSrun (args : List String) : String :=
     | _, _ => "bad-op"
   | _ => "bad-op"
 
+/-! #### table creation race: trace acceptance -/
+open DSV.Create in
+def createStep (cfg : Cfg) (s : Sys) (tok : String) : Except String Sys :=
+  match tok.splitOn ":" with
+  | a :: act :: args =>
+      match a.toNat? with
+      | none => .error "bad actor"
+      | some ai =>
+        let run (ac : Act) : Except String Sys :=
+          match step cfg s ai ac with
+          | some s' => .ok s'
+          | none => .error s!"reject {act} (not enabled for actor {ai})"
+        match act, args with
+        | "open", [seen] =>
+            let m := (resolve s).map (·.uuid)
+            let impl : Option Nat := if seen = "-" then none else seen.toNat?
+            if m ≠ impl then .error s!"mismatch open model={repr m} impl={seen}" else run .open_
+        | "acquire", [] => run .acquire
+        | "check", [r] =>
+            let m := (resolve s).isSome
+            if m ≠ (r == "some") then .error s!"mismatch check model-some={m} impl={r}" else run .check
+        | "write", [] => run .writeV0
+        | "flip", [r] =>
+            match run .flip with
+            | .ok s' =>
+                let conf : Bool := match s'.pc ai with | .lost _ => true | _ => false
+                if conf == (r == "conf") then .ok s' else .error s!"mismatch flip model-conf={conf} impl={r}"
+            | .error e => .error e
+        | "release", [] => run .release
+        | _, _ => .error s!"bad step {tok}"
+  | _ => .error s!"bad step {tok}"
+
+open DSV.Create in
+def handleCreate (args : List String) : String :=
+  let (hdr, rest) := args.span (· ≠ "|")
+  let steps := rest.drop 1
+  let kv := hdr.filterMap parseKv
+  let get (k : String) : String := (kv.find? (·.1 == k)).map (·.2) |>.getD ""
+  let cfg : Cfg := { cas := get "cas" = "1", exclusive := get "excl" = "1" }
+  let files : List MFile := if get "files" = "-" then [] else ((get "files").splitOn ",").filterMap fun t =>
+    match t.splitOn "/" with
+    | [f, u, v] => match f.toNat?, u.toNat?, v.toNat? with
+        | some a, some b, some c => some ⟨a, b, c⟩
+        | _, _, _ => none
+    | _ => none
+  let hint : Option Nat := (get "hint").toNat?
+  let creators : List Nat := ((get "creators").splitOn ",").filterMap String.toNat?
+  let s0 := init files hint (fun a => creators.contains a)
+  let rec go (s : Sys) (i : Nat) : List String → String
+    | [] =>
+        let res := match resolve s with | some m => toString m.uuid | none => "-"
+        s!"ok table={res} inits={",".intercalate (s.inits.reverse.map toString)} files={s.files.length}"
+    | t :: ts => match createStep cfg s t with
+        | .ok s' => go s' (i + 1) ts
+        | .error e => s!"fail step {i} {t}: {e}"
+  go s0 0 steps
+
 def handle (line : String) : String :=
   match splitWs line with
   | [] => "bad-op"
@@ -616,6 +674,7 @@ def handle (line : String) : String :=
     else if cmd.startsWith "meta." then handleMeta cmd args
     else if cmd.startsWith "gc." then handleGc cmd args
     else if cmd = "occ.trace" then handleOcc args
+    else if cmd = "create.trace" then handleCreate args
     else if cmd = "lock.frun" then handleFrun args
     else if cmd = "lock.srun" then handleSrun args
     else if cmd.startsWith "rng." || cmd.startsWith "retry." || cmd.startsWith "ls." then handleBackend cmd args
